@@ -769,6 +769,7 @@ pub fn check_c09(tier: &str) -> i32 {
     }
     rep.phase("grid", st, json!({}));
     let st = validity_phase();
+    cleanup_minted();
     rep.phase("validity periods beginning / ending within two minutes of now", st, json!({}));
     // session resumption across two differently configured servers of one process
     {
